@@ -6,6 +6,7 @@ CONSTANTS
   DeleteByName = FALSE
   ClaimIgnoresCancel = FALSE
   PrefixCancellers = {}
+  BlockingSend = FALSE
   DropOnClaim = TRUE
   MaxRuns = 1
 INVARIANTS TypeOK AtMostOnce NoOverlap NoPanic NoLostRun NotDropped CancelBranchNoRun NameReusable NameSlotUnique SuccessorReachable LockFreeAtEnd
